@@ -17,6 +17,9 @@ TOK_NAMES_REQ = ["request-id", "interval", "oneshot-trigger", "ret-info", "ret-i
 TOK_NAMES_ANS = ["request-id", "result", "result", "result", "info-time", "speed-hor", "no-such-token", 0x37, 0x38, 0x39, 0x22]
 ATTR_KEYS = ["result-code", "ret-info-accuracy", "ret-info-no-req-id", "ret-info-time", "no-such-attribute", 0x22, 0x23, 0x50, 0x51, 0x52, 0x54, 0x55, 0x99]
 ATTR_VALS = [None, 0, 0x49, 5, 7, 200]
+# values of CrcMasks (etsi/layer2/elements/crc_masks.py); the worker looks the member up BY VALUE, so a changed table shows
+MASK_VALUES = [26985, 9868950, 10066329, 42405, 43690, 52428, 13107, 240, 511, 271, 122]
+GPS_DATES = ["290224", "290200", "290226", "280200", "311299", "010100", "311226", "310426", "320126", "011326", "000000", "010170", "150638", "290296", "300900"]
 TMS = ["0003d00001", "00021f00", "00049f009520", "000de001019544610068006f006a00", "0002d000", "00039f0005", "0005e000056100", "0004d0020a0b", "00065f0201029f3f"]
 
 
@@ -64,6 +67,16 @@ def add_model_entry_points(ep, h):
     ep("m.byteswap", "model", [], lambda r: [XA(rhex(r, r.choice([0, 1, 2, 3, 4, 9, 34])))])
     for d in ("burst", "csbk", "dh", "so", "rcp"):
         ep(f"m.default.{d}", "model", ["defaults"], lambda r: [])
+    def parts(r):
+        h = rhex(r, r.choice([10, 10, 16, 12, 1, 0]))
+        bits = "".join(f"{x:08b}" for x in bytes.fromhex(h))
+        data = r.choice([X, X, XA, lambda _: B(bits), lambda _: B(bits), lambda _: BL(bits)])(h)
+        sn = r.randrange(128) if r.random() < 0.9 else r.choice([128, 200, 255])
+        c32 = r.choice([["n"], ["n"], X(rhex(r, 4)), X(rhex(r, 4)), X(rhex(r, 3)), X(rhex(r, 5))])
+        return [data, I(sn), I(r.choice(MASK_VALUES)), c32]
+
+    ep("m.crc9parts", "model", ["crc"], parts)
+    ep("m.gpsdate", "model", [], lambda r: [S(r.choice(GPS_DATES) if r.random() < 0.5 else f"{r.randrange(1, 32):02d}{r.randrange(1, 13):02d}{r.randrange(100):02d}")])
     ep("m.gettoken", "model", ["lrrp"], tok)
     ep("m.tms", "model", [], lambda r: [X(h["flip_hex"](r, t) if r.random() < 0.2 else t) if (t := r.choice(TMS)) else X(""), I(r.randrange(2))])
 
@@ -78,7 +91,7 @@ def _key(e):
 
 def _plain(e):
     """a buffer the caller holds and re-uses (["h", slot, enc]) is, for the model, the value it holds at the call"""
-    if e[0] == "h":
+    if e[0] in ("h", "k"):
         return _plain(e[2])
     if e[0] == "l":
         return ["l", [_plain(x) for x in e[1]]]
@@ -133,6 +146,18 @@ def line_of(spec, py_result=None):
     elif name == "m.tms":
         if not (_in_domain(a[0], ("x",)) and _in_domain(a[1], ("i",))):
             return None
+    elif name == "m.crc9parts":
+        if len(a) != 4 or a[0][0] not in ("x", "xa", "mv", "mva", "b", "bl", "fb", "fbl") or not isinstance(a[0][1], str):
+            return None
+        if a[0][0] in ("b", "bl", "fb", "fbl") and (set(a[0][1]) - set("01") or len(a[0][1]) % 8):
+            return None  # a bit array that does not fill its last octet: the pad bits of its buffer are unspecified
+        if not (_in_domain(a[1], ("i",)) and _in_domain(a[2], ("i",)) and a[2][1] in MASK_VALUES):
+            return None
+        if not (a[3][0] == "n" or (a[3][0] in ("x", "xa") and isinstance(a[3][1], str) and a[3][1] != "")):
+            return None
+    elif name == "m.gpsdate":
+        if len(a) != 1 or a[0][0] != "s" or not isinstance(a[0][1], str) or len(a[0][1]) != 6 or set(a[0][1]) - set("0123456789"):
+            return None
     if name == "m.crc.shared":
         d, le = _bits(a[1])
         return f"crc.shared {a[0][1]} {d} {le}"
@@ -148,6 +173,14 @@ def line_of(spec, py_result=None):
         return f"byteswap {a[0][1] or '-'}"
     if name.startswith("m.default."):
         return name[2:]
+    if name == "m.crc9parts":
+        t = a[0][0]
+        form = "o" if t in ("x", "xa", "mv", "mva") else ("l" if t in ("bl", "fbl") else "b")
+        bits = "".join(f"{x:08b}" for x in bytes.fromhex(a[0][1])) if form == "o" else a[0][1]
+        return f"crc9parts {form} {bits or '-'} {a[1][1]} {a[2][1]} {'none' if a[3][0] == 'n' else a[3][1]}"
+    if name == "m.gpsdate":
+        d = a[0][1]
+        return f"gpsdate {int(d[0:2])} {int(d[2:4])} {int(d[4:6])}"
     if name == "m.gettoken":
         attrs = " ".join(f"{_key(p[1][0])}={'none' if p[1][1][0] == 'n' else p[1][1][1]}" for p in a[2][1])
         return f"gettoken {a[0][1]} {_key(a[1])}" + (" " + attrs if attrs else "")
@@ -186,8 +219,9 @@ def _unq(res0):
         return None
 
 
-def model_lines(ctx, pool, ref, histories, resp):
-    """correspondence pairs: component -> [(driver line, what the implementation answered)]"""
+def model_lines(ctx, pool, ref, histories, resp, clocks=None):
+    """correspondence pairs: component -> [(driver line, what the implementation answered)]
+    clocks: {year the clock showed at import: {call key: result of the call made first under that clock}}"""
     out = {}
 
     def key_of(spec):
@@ -208,7 +242,7 @@ def model_lines(ctx, pool, ref, histories, resp):
     out["history-free-model"] = pairs
     # (2) the state machine along the real histories: every modelled call of a history, in order, then the invariant
     pairs = []
-    budget = ctx.budget(6000, 120000)
+    budget = (120000 if ctx.thorough() else 6000) * min(max(1, ctx.boost), 2)
     for (label, calls), rr in zip(histories, resp):
         if len(pairs) > budget or "r" not in rr:
             continue
@@ -225,6 +259,25 @@ def model_lines(ctx, pool, ref, histories, resp):
                 pairs.append(("S." + ln, expected_of(s, py)))
         pairs.append(("inv", "1"))
     out["state-machine-along-histories"] = pairs
+    # (2b) the same calls in interpreters whose wall clock, at import, showed another century / year / month: the model is told
+    # the clock (`clock <year>` sets S.importClock) and must answer what the Python answered under it
+    pairs = []
+    for year in sorted(clocks or {}):
+        pairs.append((f"clock {year}", "ok"))
+        for nm in sorted(pool):
+            if not nm.startswith("m."):
+                continue
+            for s in pool[nm]:
+                got = (clocks[year] or {}).get(key_of(s))
+                py = _unq(got) if got is not None else None
+                if py is None:
+                    continue
+                ln = line_of(s, py)
+                if ln is not None:
+                    pairs.append(("S." + ln, expected_of(s, py)))
+    if pairs:
+        pairs.append(("reset", "ok"))
+    out["import-clock"] = pairs
     # (3) the inventory compiled into the model == the inventory of the source as it is now
     spec = importlib.util.spec_from_file_location("scan_state", os.path.join(VERIF, "tools", "scan_state.py"))
     mod = importlib.util.module_from_spec(spec)
